@@ -64,6 +64,7 @@ type Act struct {
 	N      int      `json:"n,omitempty"`
 	C      int      `json:"c,omitempty"`
 	Flavor int      `json:"flavor,omitempty"`
+	Neg    bool     `json:"neg,omitempty"` // op "if": skip the next N actions when (storage[K] == V) xor Neg; action N+1 after it must be a nop
 }
 
 type Code struct {
@@ -91,6 +92,25 @@ type Case struct {
 	Gas     uint64  `json:"gas"`
 	Value   string  `json:"value"`
 	Comment string  `json:"comment,omitempty"`
+	// a block: transactions run one after the other on one StateDB with Finalise(true)
+	// in between.  When Multi is false the block is the single transaction above.
+	Multi bool `json:"multi,omitempty"`
+	Txs   []Tx `json:"txs,omitempty"`
+}
+
+type Tx struct {
+	Create bool   `json:"create,omitempty"`
+	To     Addr   `json:"to"`
+	Init   int    `json:"init,omitempty"`
+	Gas    uint64 `json:"gas"`
+	Value  string `json:"value"`
+}
+
+func (c *Case) txs() []Tx {
+	if c.Multi && len(c.Txs) > 0 {
+		return c.Txs
+	}
+	return []Tx{{Create: c.Create, To: c.To, Init: c.Init, Gas: c.Gas, Value: c.Value}}
 }
 
 type Obs struct {
@@ -107,16 +127,19 @@ type LogObs struct {
 	Topics []string `json:"topics"`
 	Dlen   int      `json:"dlen"`
 }
+type TxResult struct {
+	Status int    `json:"status"`
+	Err    string `json:"err,omitempty"`
+	Gas    uint64 `json:"gas"`
+	Accts  []Obs  `json:"accts"`
+	Refund uint64 `json:"refund"`
+	Burnt  string `json:"burnt"`
+}
 type Result struct {
-	Status int      `json:"status"`
-	Err    string   `json:"err,omitempty"`
-	Gas    uint64   `json:"gas"`
-	Accts  []Obs    `json:"accts"`
-	Logs   []LogObs `json:"logs"`
-	Refund uint64   `json:"refund"`
-	Burnt  string   `json:"burnt"`
-	Hits   []string `json:"hits,omitempty"`
-	Stats  map[string]int `json:"-"`
+	Txs   []TxResult     `json:"txs"`
+	Logs  []LogObs       `json:"logs"`
+	Hits  []string       `json:"hits,omitempty"`
+	Stats map[string]int `json:"-"`
 }
 
 func big10(s string) *big.Int {
@@ -209,8 +232,27 @@ func (cp *compiler) compile(c *Code) []byte {
 		b.WriteByte(0xfd)
 		b.WriteByte(0x5b)
 	}
-	for _, a := range c.Acts {
+	starts := make([]int, len(c.Acts)+1)
+	type jfix struct{ pos, target int }
+	var jfixes []jfix
+	for ai, a := range c.Acts {
+		starts[ai] = b.Len()
 		switch a.Op {
+		case "if":
+			t := ai + a.N + 1
+			if t >= len(c.Acts) || c.Acts[t].Op != "nop" || c.Acts[t].N < 1 {
+				panic("if: the action after the skipped ones must be a nop")
+			}
+			push32(&b, big10(a.V))
+			push32(&b, big10(a.K))
+			b.WriteByte(0x54)
+			b.WriteByte(0x14)
+			if a.Neg {
+				b.WriteByte(0x15)
+			}
+			jfixes = append(jfixes, jfix{b.Len() + 1, t})
+			push2(&b, 0)
+			b.WriteByte(0x57)
 		case "sstore":
 			push32(&b, big10(a.V))
 			push32(&b, big10(a.K))
@@ -288,6 +330,10 @@ func (cp *compiler) compile(c *Code) []byte {
 	}
 	b.WriteByte(0x00)
 	out := b.Bytes()
+	for _, f := range jfixes {
+		out[f.pos] = byte(starts[f.target] >> 8)
+		out[f.pos+1] = byte(starts[f.target])
+	}
 	offs := map[int]int{}
 	for _, id := range children {
 		offs[id] = len(out)
@@ -724,6 +770,7 @@ func run(c *Case) (*Result, error) {
 		}
 		know(ac.A)
 	}
+	// the previous block: committed, and the state reopened from its root
 	root, valRoot, stRoot, err := db0.Commit(false)
 	if err != nil {
 		return nil, err
@@ -732,73 +779,17 @@ func run(c *Case) (*Result, error) {
 	if err != nil {
 		return nil, err
 	}
-	thash := common.BytesToHash([]byte("c16-tx"))
-	db.Prepare(thash, common.Hash{}, 0)
-	e := &env{cp: cp, c: c, db: db, thash: thash, initial: initial}
+	e := &env{cp: cp, c: c, db: db, initial: initial}
 	yp := params.Versions[params.YouCurrentVersion]
-	tr := &tracer{e: e, stats: map[string]int{}, stipend: params.CallStipend}
-	cfg := &vm.Config{
-		RuntimeConfig: vm.RuntimeConfig{CurrYouParams: &yp, JumpTable: vm.GetJumpTable(yp.EVMVersion)},
-		LocalConfig:   vm.LocalConfig{Debug: true, Tracer: tr},
-	}
 	origin := cp.real(&c.Origin)
-	ctx := vm.Context{CanTransfer: core.CanTransfer, Transfer: core.Transfer,
-		GetHash: func(uint64) common.Hash { return common.Hash{} },
-		Origin:  origin, GasPrice: new(big.Int), BlockNumber: big.NewInt(1), Time: big.NewInt(1), GasLimit: c.Gas}
-	evm := vm.NewEVM(ctx, db, cfg)
-	pre := e.dumpNow()
-	var left uint64
-	var cerr error
-	if c.Create {
-		_, _, left, cerr = evm.Create(vm.AccountRef(origin), cp.bytes(c.Init), c.Gas, big10(c.Value))
-	} else {
-		_, left, cerr = evm.Call(vm.AccountRef(origin), cp.real(&c.To), nil, c.Gas, big10(c.Value))
-	}
-	post := e.dumpNow()
-	res := &Result{Status: errClass(cerr), Gas: left, Refund: db.GetRefund(), Stats: tr.stats}
-	if cerr != nil {
-		res.Err = cerr.Error()
-		if len(res.Err) > 60 {
-			res.Err = res.Err[:60]
+	res := &Result{Stats: map[string]int{}}
+	var hits []string
+	hit := func(s string) {
+		if len(hits) < 8 {
+			hits = append(hits, s)
 		}
 	}
-	// ---- oracles at the top frame
-	burnt := new(big.Int)
-	if len(tr.frames) > 0 && cerr == nil {
-		burnt = tr.frames[0].burnt
-	}
-	res.Burnt = burnt.String()
-	if left > c.Gas {
-		tr.hit(fmt.Sprintf("gas: the transaction got back %d gas, %d supplied", left, c.Gas))
-	}
-	if cerr != nil {
-		var nf *common.Address
-		if c.Create {
-			nf = &origin
-		}
-		if w := diff(pre, post, true, nf); w != "" {
-			tr.hit("failed top-level frame left a trace: " + w)
-		}
-	}
-	if want := new(big.Int).Sub(pre.total(), burnt); want.Cmp(post.total()) != 0 {
-		tr.hit(fmt.Sprintf("balance sum not conserved: before %v, after %v, burnt by selfdestruct-to-self %v", pre.total(), post.total(), burnt))
-	}
-	if e.negative != "" {
-		tr.hit("negative balance: " + e.negative)
-	}
-	res.Hits = tr.hits
-	// ---- observation for the model comparison: every live or committed address, symbolically named
-	live := db.VerifC16Live()
-	var addrs []common.Address
-	for a := range initial {
-		addrs = append(addrs, a)
-	}
-	for a := range live {
-		if _, ok := initial[a]; !ok {
-			addrs = append(addrs, a)
-		}
-	}
-	// name the addresses: closure of CREATE / CREATE2 derivations from known ones
+	// names for the addresses the program mentions
 	var mention func(a *Addr)
 	mention = func(a *Addr) {
 		if a == nil {
@@ -810,14 +801,12 @@ func run(c *Case) (*Result, error) {
 		know(*a)
 	}
 	mention(&c.Origin)
-	if !c.Create {
-		mention(&c.To)
-	}
 	type site struct {
 		salt string
 		init int
 	}
 	var sites []site
+	keyset := map[common.Hash]bool{}
 	for _, k := range c.Codes {
 		for i := range k.Acts {
 			mention(k.Acts[i].To)
@@ -825,48 +814,8 @@ func run(c *Case) (*Result, error) {
 			if k.Acts[i].Op == "create" && k.Acts[i].Two {
 				sites = append(sites, site{k.Acts[i].Salt, k.Acts[i].Init})
 			}
-		}
-	}
-	for progress := true; progress; {
-		progress = false
-		for _, a := range addrs {
-			if _, ok := symOf[a]; ok {
-				continue
-			}
-		search:
-			for _, k := range known {
-				kc := k
-				rk := cp.real(&kc)
-				top := db.GetNonce(rk) // a surviving CREATE used a nonce below the creator's current one
-				if top > 5000 {
-					top = 5000
-				}
-				for n := uint64(0); n < top; n++ {
-					if crypto.CreateAddress(rk, n) == a {
-						know(Addr{K: "c", S: &kc, Nonce: n})
-						progress = true
-						break search
-					}
-				}
-				for _, s := range sites {
-					if crypto.CreateAddress2(rk, common.BigToHash(big10(s.salt)), cp.bytes(s.init)) == a {
-						know(Addr{K: "c2", S: &kc, Salt: s.salt, Init: s.init})
-						progress = true
-						break search
-					}
-				}
-			}
-		}
-	}
-	codeId := map[common.Hash]int{emptyCodeHash: 0, common.Hash{}: 0}
-	for id, k := range cp.codes {
-		codeId[crypto.Keccak256Hash(k.code)] = id
-	}
-	keyset := map[common.Hash]bool{}
-	for _, k := range c.Codes {
-		for _, a := range k.Acts {
-			if a.Op == "sstore" {
-				keyset[common.BigToHash(big10(a.K))] = true
+			if k.Acts[i].Op == "sstore" || k.Acts[i].Op == "if" {
+				keyset[common.BigToHash(big10(k.Acts[i].K))] = true
 			}
 		}
 	}
@@ -880,64 +829,209 @@ func run(c *Case) (*Result, error) {
 		keys = append(keys, k)
 	}
 	sort.Slice(keys, func(i, j int) bool { return bytes.Compare(keys[i][:], keys[j][:]) < 0 })
-	seenObs := map[common.Address]bool{}
-	addObs := func(a common.Address) error {
-		if seenObs[a] {
+	codeId := map[common.Hash]int{emptyCodeHash: 0, common.Hash{}: 0}
+	for id, k := range cp.codes {
+		codeId[crypto.Keccak256Hash(k.code)] = id
+	}
+	graveBal := map[common.Address]*big.Int{} // balance an account held when Finalise deleted it
+	var thashes []common.Hash
+	for ti, tx := range c.txs() {
+		if !tx.Create {
+			t := tx.To
+			mention(&t)
+		}
+		thash := common.BytesToHash([]byte(fmt.Sprintf("c16-tx-%d", ti)))
+		thashes = append(thashes, thash)
+		db.Prepare(thash, common.Hash{}, ti)
+		e.thash = thash
+		tr := &tracer{e: e, stats: map[string]int{}, stipend: params.CallStipend}
+		cfg := &vm.Config{
+			RuntimeConfig: vm.RuntimeConfig{CurrYouParams: &yp, JumpTable: vm.GetJumpTable(yp.EVMVersion)},
+			LocalConfig:   vm.LocalConfig{Debug: true, Tracer: tr},
+		}
+		ctx := vm.Context{CanTransfer: core.CanTransfer, Transfer: core.Transfer,
+			GetHash: func(uint64) common.Hash { return common.Hash{} },
+			Origin:  origin, GasPrice: new(big.Int), BlockNumber: big.NewInt(1), Time: big.NewInt(1), GasLimit: tx.Gas}
+		evm := vm.NewEVM(ctx, db, cfg)
+		pre := e.dumpNow()
+		var left uint64
+		var cerr error
+		if tx.Create {
+			_, _, left, cerr = evm.Create(vm.AccountRef(origin), cp.bytes(tx.Init), tx.Gas, big10(tx.Value))
+		} else {
+			t := tx.To
+			_, left, cerr = evm.Call(vm.AccountRef(origin), cp.real(&t), nil, tx.Gas, big10(tx.Value))
+		}
+		post := e.dumpNow()
+		txr := TxResult{Status: errClass(cerr), Gas: left, Refund: db.GetRefund()}
+		if cerr != nil {
+			txr.Err = cerr.Error()
+			if len(txr.Err) > 60 {
+				txr.Err = txr.Err[:60]
+			}
+		}
+		// ---- oracles at the top frame
+		burnt := new(big.Int)
+		if len(tr.frames) > 0 && cerr == nil {
+			burnt = tr.frames[0].burnt
+		}
+		txr.Burnt = burnt.String()
+		for _, h := range tr.hits {
+			hit(fmt.Sprintf("%s [tx %d]", h, ti))
+		}
+		if left > tx.Gas {
+			hit(fmt.Sprintf("gas: the transaction got back %d gas, %d supplied [tx %d]", left, tx.Gas, ti))
+		}
+		if cerr != nil {
+			var nf *common.Address
+			if tx.Create {
+				nf = &origin
+			}
+			if w := diff(pre, post, true, nf); w != "" {
+				hit(fmt.Sprintf("failed top-level frame left a trace: %s [tx %d]", w, ti))
+			}
+		}
+		if want := new(big.Int).Sub(pre.total(), burnt); want.Cmp(post.total()) != 0 {
+			what := "balance sum not conserved"
+			for a, b := range graveBal {
+				if x, y := pre.accts[a], post.accts[a]; (x == nil || !x.exists) && y != nil && y.exists && b.Sign() > 0 {
+					what = fmt.Sprintf("balance of a deleted account resurrected (%x held %v when Finalise deleted it): balance sum not conserved", a, b)
+				}
+			}
+			hit(fmt.Sprintf("%s: before %v, after %v, burnt by selfdestruct-to-self %v [tx %d]", what, pre.total(), post.total(), burnt, ti))
+		}
+		if e.negative != "" {
+			hit("negative balance: " + e.negative)
+		}
+		// ---- observation for the model comparison: every live or committed address, symbolically named
+		live := db.VerifC16Live()
+		var addrs []common.Address
+		for a := range initial {
+			addrs = append(addrs, a)
+		}
+		for a := range live {
+			if _, ok := initial[a]; !ok {
+				addrs = append(addrs, a)
+			}
+		}
+		for progress := true; progress; {
+			progress = false
+			for _, a := range addrs {
+				if _, ok := symOf[a]; ok {
+					continue
+				}
+			search:
+				for _, k := range known {
+					kc := k
+					rk := cp.real(&kc)
+					top := db.GetNonce(rk) // a surviving CREATE used a nonce below the creator's current one
+					if top > 5000 {
+						top = 5000
+					}
+					for n := uint64(0); n < top; n++ {
+						if crypto.CreateAddress(rk, n) == a {
+							know(Addr{K: "c", S: &kc, Nonce: n})
+							progress = true
+							break search
+						}
+					}
+					for _, s := range sites {
+						if crypto.CreateAddress2(rk, common.BigToHash(big10(s.salt)), cp.bytes(s.init)) == a {
+							know(Addr{K: "c2", S: &kc, Salt: s.salt, Init: s.init})
+							progress = true
+							break search
+						}
+					}
+				}
+			}
+		}
+		seenObs := map[common.Address]bool{}
+		addObs := func(a common.Address) error {
+			if seenObs[a] {
+				return nil
+			}
+			seenObs[a] = true
+			sym, ok := symOf[a]
+			if !ok {
+				return fmt.Errorf("address %x in the state cannot be derived from the program", a)
+			}
+			o := Obs{A: sym, Exists: db.Exist(a), Nonce: db.GetNonce(a), Bal: new(big.Int).Abs(db.GetBalance(a)).String(), Dead: db.HasSuicided(a)}
+			id, ok := codeId[db.GetCodeHash(a)]
+			if !ok {
+				id = 999999
+			}
+			o.Code = id
+			for _, k := range keys {
+				o.Stor = append(o.Stor, [2]string{new(big.Int).SetBytes(k[:]).String(), new(big.Int).SetBytes(db.GetState(a, k).Bytes()).String()})
+			}
+			txr.Accts = append(txr.Accts, o)
 			return nil
 		}
-		seenObs[a] = true
-		sym, ok := symOf[a]
-		if !ok {
-			return fmt.Errorf("address %x in the state cannot be derived from the program", a)
+		sort.Slice(addrs, func(i, j int) bool { return bytes.Compare(addrs[i][:], addrs[j][:]) < 0 })
+		for _, a := range addrs {
+			if err := addObs(a); err != nil {
+				return nil, err
+			}
 		}
-		o := Obs{A: sym, Exists: db.Exist(a), Nonce: db.GetNonce(a), Bal: new(big.Int).Abs(db.GetBalance(a)).String(), Dead: db.HasSuicided(a)}
-		id, ok := codeId[db.GetCodeHash(a)]
-		if !ok {
-			id = 999999
+		for _, k := range known { // mentioned but untouched addresses: must not exist in the model either
+			kc := k
+			if err := addObs(cp.real(&kc)); err != nil {
+				return nil, err
+			}
 		}
-		o.Code = id
-		for _, k := range keys {
-			o.Stor = append(o.Stor, [2]string{new(big.Int).SetBytes(k[:]).String(), new(big.Int).SetBytes(db.GetState(a, k).Bytes()).String()})
+		res.Txs = append(res.Txs, txr)
+		for k, v := range tr.stats {
+			if k == "max_depth" {
+				if v > res.Stats[k] {
+					res.Stats[k] = v
+				}
+			} else {
+				res.Stats[k] += v
+			}
 		}
-		res.Accts = append(res.Accts, o)
-		return nil
+		// ---- Finalise(true), as core.ApplyTransaction does: only suicided accounts' balances may disappear
+		deadSum := new(big.Int)
+		for a, ad := range post.accts {
+			if ad.exists && ad.dead {
+				deadSum.Add(deadSum, ad.bal)
+				graveBal[a] = new(big.Int).Set(ad.bal)
+			} else if ad.exists {
+				delete(graveBal, a)
+			}
+		}
+		db.Finalise(true)
+		fin := e.dumpNow()
+		if want := new(big.Int).Sub(post.total(), deadSum); want.Cmp(fin.total()) != 0 {
+			hit(fmt.Sprintf("balance sum changed by Finalise beyond suicided accounts: %v -> %v (suicided held %v) [tx %d]", post.total(), fin.total(), deadSum, ti))
+		}
+		// storage must read the same before and after Finalise for the accounts that stay
+		for a, x := range post.accts {
+			y := fin.accts[a]
+			if x.exists && !x.dead && y != nil && y.exists {
+				for k, v := range x.stor {
+					if y.stor[k] != v {
+						hit(fmt.Sprintf("storage of %x at %x changed by Finalise (%x -> %x) [tx %d]", a, k, v, y.stor[k], ti))
+					}
+				}
+			}
+		}
 	}
-	sort.Slice(addrs, func(i, j int) bool { return bytes.Compare(addrs[i][:], addrs[j][:]) < 0 })
-	for _, a := range addrs {
-		if err := addObs(a); err != nil {
-			return nil, err
+	for _, th := range thashes {
+		for _, l := range db.GetLogs(th) {
+			sym, ok := symOf[l.Address]
+			if !ok {
+				return nil, fmt.Errorf("log from unknown address %x", l.Address)
+			}
+			lo := LogObs{A: sym, Dlen: len(l.Data), Topics: []string{}}
+			for _, tp := range l.Topics {
+				lo.Topics = append(lo.Topics, new(big.Int).SetBytes(tp[:]).String())
+			}
+			res.Logs = append(res.Logs, lo)
 		}
 	}
-	for _, k := range known { // mentioned but untouched addresses: must not exist in the model either
-		kc := k
-		if err := addObs(cp.real(&kc)); err != nil {
-			return nil, err
-		}
-	}
-	for _, l := range db.GetLogs(thash) {
-		sym, ok := symOf[l.Address]
-		if !ok {
-			return nil, fmt.Errorf("log from unknown address %x", l.Address)
-		}
-		lo := LogObs{A: sym, Dlen: len(l.Data), Topics: []string{}}
-		for _, tp := range l.Topics {
-			lo.Topics = append(lo.Topics, new(big.Int).SetBytes(tp[:]).String())
-		}
-		res.Logs = append(res.Logs, lo)
-	}
-	// ---- after Finalise(true): only suicided accounts' balances may disappear
-	deadSum := new(big.Int)
-	for _, a := range post.accts {
-		if a.exists && a.dead {
-			deadSum.Add(deadSum, a.bal)
-		}
-	}
-	db.Finalise(true)
-	fin := e.dumpNow()
-	if want := new(big.Int).Sub(post.total(), deadSum); want.Cmp(fin.total()) != 0 {
-		tr.hit(fmt.Sprintf("balance sum changed by Finalise beyond suicided accounts: %v -> %v (suicided held %v)", post.total(), fin.total(), deadSum))
-	}
-	res.Hits = tr.hits
+	// the block's root must be computable (IntermediateRoot as the block validator does)
+	db.IntermediateRoot(true)
+	res.Hits = hits
 	return res, nil
 }
 
@@ -976,6 +1070,8 @@ func actCoq(a *Act) string {
 		return "ASelfdestruct " + addrCoq(a.Ben)
 	case "nop":
 		return fmt.Sprintf("ANop %d", a.N)
+	case "if":
+		return fmt.Sprintf("AIf %s %s %v %d%%nat", big10(a.K), big10(a.V), a.Neg, a.N)
 	case "stop":
 		return "AStop"
 	case "return":
@@ -1022,15 +1118,32 @@ func caseCoq(c *Case, r *Result) string {
 		if i > 0 {
 			sb.WriteString("; ")
 		}
-		st := pairsCoq(a.Stor)
-		sb.WriteString(fmt.Sprintf("(%s, mkAcct %d %s %d %s %s false)", addrCoq(&a.A), a.Nonce, big10(a.Bal), a.Code, st, st))
+		sb.WriteString(fmt.Sprintf("(%s, mkAcct %d %s %d [] [] %s false)", addrCoq(&a.A), a.Nonce, big10(a.Bal), a.Code, pairsCoq(a.Stor)))
 	}
-	sb.WriteString(fmt.Sprintf("]\n %v %s %s %d %d %s\n %d %d [", c.Create, addrCoq(&c.Origin), addrCoq(&c.To), c.Init, c.Gas, big10(c.Value), r.Status, r.Gas))
-	for i, o := range r.Accts {
+	sb.WriteString("]\n [")
+	for i, t := range c.txs() {
 		if i > 0 {
 			sb.WriteString("; ")
 		}
-		sb.WriteString(fmt.Sprintf("mkObs %s %v %d %s %d %v %s", addrCoq(&o.A), o.Exists, o.Nonce, big10(o.Bal), o.Code, o.Dead, pairsAllCoq(o.Stor)))
+		to := t.To
+		if t.Create {
+			to = c.Origin
+		}
+		sb.WriteString(fmt.Sprintf("mkTx %v %s %s %d %d %s", t.Create, addrCoq(&c.Origin), addrCoq(&to), t.Init, t.Gas, big10(t.Value)))
+	}
+	sb.WriteString("]\n [")
+	for ti, x := range r.Txs {
+		if ti > 0 {
+			sb.WriteString(";\n ")
+		}
+		sb.WriteString(fmt.Sprintf("mkTxObs %d %d %d %s [", x.Status, x.Gas, x.Refund, big10(x.Burnt)))
+		for i, o := range x.Accts {
+			if i > 0 {
+				sb.WriteString("; ")
+			}
+			sb.WriteString(fmt.Sprintf("mkObs %s %v %d %s %d %v %s", addrCoq(&o.A), o.Exists, o.Nonce, big10(o.Bal), o.Code, o.Dead, pairsAllCoq(o.Stor)))
+		}
+		sb.WriteString("]")
 	}
 	sb.WriteString("]\n [")
 	for i, l := range r.Logs {
@@ -1039,7 +1152,7 @@ func caseCoq(c *Case, r *Result) string {
 		}
 		sb.WriteString(fmt.Sprintf("(%s, %s, %d)", addrCoq(&l.A), nums(l.Topics), l.Dlen))
 	}
-	sb.WriteString(fmt.Sprintf("] %d %s", r.Refund, big10(r.Burnt)))
+	sb.WriteString("]")
 	return sb.String()
 }
 
@@ -1518,6 +1631,8 @@ func suicideCase(r *vf.Rng) *Case {
 	fresh := Addr{K: "b", N: 21}
 	nv := 1 + r.Intn(3)
 	victim := func(i int) Addr { return Addr{K: "b", N: uint64(2 + i)} }
+	// victim 1 destructs into victim 0 after victim 0 is gone: a dead account holding value at the end of the transaction
+	deadHolds := nv >= 2 && r.Chance(50)
 	c.Accts = append(c.Accts, Acct{A: origin, Nonce: 1, Bal: "1000000000000000000"})
 	for i := 0; i < nv; i++ {
 		self := victim(i)
@@ -1535,6 +1650,9 @@ func suicideCase(r *vf.Rng) *Case {
 			ben = victim(r.Intn(nv))
 		case 7:
 			ben = main
+		}
+		if deadHolds && i == 1 {
+			ben = victim(0)
 		}
 		var acts []Act
 		if r.Chance(30) {
@@ -1574,6 +1692,10 @@ func suicideCase(r *vf.Rng) *Case {
 			acts = append(acts, Act{Op: "sstore", K: "2", V: fmt.Sprintf("%d", j)})
 		}
 	}
+	if deadHolds {
+		v0, v1 := victim(0), victim(1)
+		acts = append(acts, Act{Op: "call", Kind: 0, Gas: "100000000", To: &v0, V: "0"}, Act{Op: "call", Kind: 0, Gas: "100000000", To: &v1, V: g.pickBig([]string{"3", "0"})})
+	}
 	if r.Chance(15) {
 		acts = append(acts, Act{Op: []string{"revert", "invalid"}[r.Intn(2)]})
 	}
@@ -1583,6 +1705,146 @@ func suicideCase(r *vf.Rng) *Case {
 	c.Value = g.pickBig([]string{"0", "4"})
 	c.Gas = 10000000
 	c.Comment = "suicide"
+	if r.Chance(65) { // the same again later in the block: the destructed contracts are gone, their addresses are not
+		c.Multi = true
+		for k := 2 + r.Intn(2); k > 0; k-- {
+			c.Txs = append(c.Txs, Tx{To: main, Gas: 10000000, Value: c.Value})
+			if r.Chance(40) {
+				c.Txs = append(c.Txs, Tx{To: victim(r.Intn(nv)), Gas: 1000000, Value: g.pickBig([]string{"0", "3"})})
+			}
+		}
+	}
+	return c
+}
+
+// blockCase: a block of 2-5 transactions on one contract A whose code runs a different
+// group of actions in each transaction (guarded by a phase slot that every group
+// advances).  The groups write a few slots of A with values from small per-slot pools
+// (the value committed in the previous block, zero, values written earlier in the
+// block), directly and through nested frames running on A's storage (DELEGATECALL /
+// CALLCODE into libraries, a re-entrant CALL through a relay) that succeed, revert,
+// hit an invalid opcode or run out of gas.  Optionally a contract created by the first
+// transaction of the block is called later on.
+func blockCase(r *vf.Rng) *Case {
+	g := &gen{r: r, c: &Case{}, cp: &compiler{codes: map[int]*Code{}}, nextId: 1}
+	c := g.c
+	origin := Addr{K: "b", N: 0}
+	c.Origin = origin
+	a := Addr{K: "b", N: 1}
+	relay := Addr{K: "b", N: 2}
+	originNonce := uint64(1 + r.Intn(2))
+	const phase = "9"
+	nslots := 1 + r.Intn(2)
+	committed := make([]string, nslots)
+	pool := make([][]string, nslots)
+	var stor [][2]string
+	for i := range committed {
+		committed[i] = g.pickBig([]string{"0", "1", "7", "7"})
+		pool[i] = []string{committed[i], committed[i], "0", "5", g.pickBig([]string{"1", "6"})}
+		if committed[i] != "0" {
+			stor = append(stor, [2]string{fmt.Sprintf("%d", i), committed[i]})
+		}
+	}
+	write := func() Act {
+		i := r.Intn(nslots)
+		return Act{Op: "sstore", K: fmt.Sprintf("%d", i), V: pool[i][r.Intn(len(pool[i]))]}
+	}
+	// libraries run on the caller's storage
+	nlib := 3 + r.Intn(3)
+	var libs []Addr
+	c.Accts = append(c.Accts, Acct{A: origin, Nonce: originNonce, Bal: "1000000000000000000"})
+	for i := 0; i < nlib; i++ {
+		acts := []Act{write()}
+		if r.Chance(40) {
+			acts = append(acts, write())
+		}
+		switch r.Intn(5) {
+		case 0, 1:
+			acts = append(acts, Act{Op: "revert"})
+		case 2:
+			acts = append(acts, Act{Op: "invalid", Flavor: r.Intn(3)})
+		}
+		l := Addr{K: "b", N: uint64(10 + i)}
+		libs = append(libs, l)
+		c.Accts = append(c.Accts, Acct{A: l, Nonce: 1, Bal: "0", Code: g.addCode(acts, 0)})
+	}
+	failing := make([]Addr, nslots) // per slot: a library that writes the slot and then fails
+	for i := range failing {
+		failing[i] = Addr{K: "b", N: uint64(30 + i)}
+		end := Act{Op: "revert"}
+		if r.Chance(40) {
+			end = Act{Op: "invalid", Flavor: r.Intn(3)}
+		}
+		c.Accts = append(c.Accts, Acct{A: failing[i], Nonce: 1, Bal: "0", Code: g.addCode([]Act{{Op: "sstore", K: fmt.Sprintf("%d", i), V: g.pickBig([]string{"2", "8"})}, end}, 0)})
+	}
+	c.Accts = append(c.Accts, Acct{A: relay, Nonce: 1, Bal: "0", Code: g.addCode([]Act{{Op: "call", Kind: 0, Gas: g.pickBig([]string{"30000", "60000", "100000000"}), To: &a, V: "0"}}, 0)})
+	nested := func() Act {
+		if r.Chance(20) {
+			return Act{Op: "call", Kind: 0, Gas: g.pickBig([]string{"100000", "100000000"}), To: &relay, V: "0", Req: r.Chance(10)}
+		}
+		l := libs[r.Intn(len(libs))]
+		return Act{Op: "call", Kind: 1 + r.Intn(2), Gas: g.pickBig([]string{"100000000", "100000000", "100000000", "9000", "25000"}), To: &l, V: "0", Req: r.Chance(10)}
+	}
+	nph := 2 + r.Intn(3)
+	var code []Act
+	for j := nph - 1; j >= 0; j-- {
+		var grp []Act
+		for k := 1 + r.Intn(4); k > 0; k-- {
+			if r.Chance(45) {
+				grp = append(grp, write())
+			} else {
+				grp = append(grp, nested())
+			}
+		}
+		if r.Chance(75) { // the pattern of interest: a surviving write, then a nested frame on the same storage
+			i := r.Intn(nslots)
+			slot := fmt.Sprintf("%d", i)
+			other := g.pickBig([]string{"5", "6", "3"})
+			if j == 0 || r.Chance(25) {
+				// early in the block: move the slot away from its committed value
+				grp = append(grp, Act{Op: "sstore", K: slot, V: other}, nested())
+			} else {
+				// later: put the committed value back, then a frame that writes the slot and fails
+				grp = append(grp, Act{Op: "sstore", K: slot, V: committed[i]})
+				l := failing[i]
+				grp = append(grp, Act{Op: "call", Kind: 1 + r.Intn(2), Gas: "100000000", To: &l, V: "0"})
+			}
+		}
+		grp = append(grp, Act{Op: "sstore", K: phase, V: fmt.Sprintf("%d", j+1)})
+		code = append(code, Act{Op: "if", K: phase, V: fmt.Sprintf("%d", j), Neg: true, N: len(grp)})
+		code = append(code, grp...)
+		code = append(code, Act{Op: "nop", N: 1})
+	}
+	c.Accts = append(c.Accts, Acct{A: a, Nonce: 1, Bal: "10", Code: g.addCode(code, 0), Stor: stor})
+	c.Multi = true
+	// a contract created in the block: its storage exists in the pending layer only
+	var made *Addr
+	if r.Chance(35) {
+		rt := g.addCode([]Act{{Op: "sstore", K: "0", V: g.pickBig([]string{"0", "3", "4"})}, {Op: "call", Kind: 1 + r.Intn(2), Gas: "100000000", To: &libs[r.Intn(len(libs))], V: "0"}}, 0)
+		init := g.addCode([]Act{{Op: "sstore", K: "0", V: g.pickBig([]string{"3", "4"})}, {Op: "return", C: rt}}, 0)
+		c.Txs = append(c.Txs, Tx{Create: true, Init: init, Gas: 10000000, Value: "0"})
+		made = &Addr{K: "c", S: &origin, Nonce: originNonce}
+	}
+	for j := 0; j < nph; j++ {
+		gas := uint64(10000000)
+		if r.Chance(15) {
+			gas = uint64(30000 + r.Intn(200000))
+		}
+		c.Txs = append(c.Txs, Tx{To: a, Gas: gas, Value: "0"})
+		if made != nil && r.Chance(50) {
+			c.Txs = append(c.Txs, Tx{To: *made, Gas: 10000000, Value: "0"})
+		}
+		if r.Chance(10) {
+			c.Txs = append(c.Txs, Tx{To: libs[r.Intn(len(libs))], Gas: 1000000, Value: "0"})
+		}
+	}
+	if len(c.Txs) > 6 {
+		c.Txs = c.Txs[:6]
+	}
+	c.To = a
+	c.Value = "0"
+	c.Gas = 10000000
+	c.Comment = "block"
 	return c
 }
 
@@ -1662,9 +1924,19 @@ func genCmd(seed uint64, n int, outDir, corpusDir string) {
 		txt := caseCoq(c, rs)
 		sb.WriteString(txt)
 		count++
-		res.Count(fmt.Sprintf("top status %d", rs.Status))
-		if rs.Err != "" {
-			es := rs.Err
+		res.Count(fmt.Sprintf("blocks of %d transactions", len(rs.Txs)))
+		anyBurnt := false
+		for _, x := range rs.Txs {
+			res.Count(fmt.Sprintf("top status %d", x.Status))
+			if big10(x.Burnt).Sign() != 0 {
+				anyBurnt = true
+			}
+		}
+		for _, x := range rs.Txs {
+			if x.Err == "" {
+				continue
+			}
+			es := x.Err
 			if strings.HasPrefix(es, "invalid opcode") || strings.HasPrefix(es, "stack") || strings.HasPrefix(es, "invalid jump") {
 				es = strings.SplitN(es, " (", 2)[0]
 				es = strings.SplitN(es, " 0x", 2)[0]
@@ -1689,7 +1961,7 @@ func genCmd(seed uint64, n int, outDir, corpusDir string) {
 		if calls > 0 {
 			distinct[string(crypto.Keccak256([]byte(txt)))] = true
 		}
-		if big10(rs.Burnt).Sign() != 0 {
+		if anyBurnt {
 			res.Count("cases with burnt value")
 		}
 		if len(rs.Hits) > 0 {
@@ -1697,7 +1969,7 @@ func genCmd(seed uint64, n int, outDir, corpusDir string) {
 		}
 		res.CaseDescs = append(res.CaseDescs, c)
 		if len(res.Samples) < 4 {
-			res.Samples = append(res.Samples, map[string]interface{}{"case": c, "status": rs.Status, "gas_left": rs.Gas, "logs": len(rs.Logs)})
+			res.Samples = append(res.Samples, map[string]interface{}{"case": c, "status": rs.Txs[0].Status, "gas_left": rs.Txs[0].Gas, "logs": len(rs.Logs)})
 		}
 	}
 	for _, c := range loadCorpus(corpusDir) {
@@ -1717,20 +1989,32 @@ func genCmd(seed uint64, n int, outDir, corpusDir string) {
 				}
 			}()
 			switch x := r.Intn(100); {
-			case x < 34:
+			case x < 28:
 				c = chainCase(r)
-			case x < 45:
+			case x < 38:
 				c = staticCase(r)
-			case x < 56:
+			case x < 48:
 				c = createCase(r)
-			case x < 66:
+			case x < 58:
 				c = suicideCase(r)
+			case x < 73:
+				c = blockCase(r)
 			default:
 				c = newCase(r)
 			}
 		}()
 		if c == nil {
 			continue
+		}
+		if !c.Multi && r.Chance(30) { // the same transaction two or three times in one block
+			c.Multi = true
+			for k := 2 + r.Intn(2); k > 0; k-- {
+				gas := c.Gas
+				if r.Chance(25) {
+					gas = uint64(25000 + r.Intn(400000))
+				}
+				c.Txs = append(c.Txs, Tx{Create: c.Create, To: c.To, Init: c.Init, Gas: gas, Value: c.Value})
+			}
 		}
 		// measure, then choose the gas allotment
 		rs, err := run(c)
@@ -1742,7 +2026,11 @@ func genCmd(seed uint64, n int, outDir, corpusDir string) {
 			}
 			continue
 		}
-		used := c.Gas - rs.Gas
+		if c.Multi {
+			add(c)
+			continue
+		}
+		used := c.Gas - rs.Txs[0].Gas
 		x0 := r.Intn(100)
 		if c.Comment != "" && r.Chance(60) {
 			x0 = 0
@@ -1773,7 +2061,7 @@ func genCmd(seed uint64, n int, outDir, corpusDir string) {
 	vf.WriteFile(filepath.Join(outDir, "Cases.v"), sb.String())
 	res.Cases = count
 	res.Distinct = len(distinct)
-	res.Rule = "random multi-contract programs (2-5 contracts + library of runtime/init codes, actions SSTORE/LOG/CALL/CALLCODE/DELEGATECALL/STATICCALL/CREATE/CREATE2/SELFDESTRUCT/REVERT/INVALID, call targets incl. missing, funded and CREATE/CREATE2-derived addresses, boundary gas arguments and values), compiled to byte code and run by the real EVM on a committed StateDB; gas allotment = plenty, or uniform below the gas used with plenty (out-of-gas at a random point), or a boundary; scenario families: call chains, static-context offenders, CREATE endings, repeated SELFDESTRUCT of the same contract with value arriving in between; one self-recursive case to the depth limit per shard; a case = program + transaction + observed status, gas left, all accounts, logs, refund, burnt value; non-trivial = executed at least one call/create opcode; distinct by full case text"
+	res.Rule = "random multi-contract programs (2-5 contracts + library of runtime/init codes, actions SSTORE/LOG/CALL/CALLCODE/DELEGATECALL/STATICCALL/CREATE/CREATE2/SELFDESTRUCT/REVERT/INVALID, call targets incl. missing, funded and CREATE/CREATE2-derived addresses, boundary gas arguments and values), compiled to byte code and run by the real EVM on a committed StateDB; gas allotment = plenty, or uniform below the gas used with plenty (out-of-gas at a random point), or a boundary; blocks of 1-6 transactions on one StateDB with Finalise(true) in between (a phased contract writing slots from small per-slot pools directly and through nested frames on its storage; any other case repeated two or three times); scenario families: call chains, static-context offenders, CREATE endings, repeated SELFDESTRUCT of the same contract with value arriving in between; one self-recursive case to the depth limit per shard; a case = program + transaction + observed status, gas left, all accounts, logs, refund, burnt value; non-trivial = executed at least one call/create opcode; distinct by full case text"
 	res.Write(filepath.Join(outDir, "result.json"))
 }
 
@@ -1809,7 +2097,7 @@ func tableCmd(out string) {
 	f := func(name string, v interface{}) string { return fmt.Sprintf("  %s := %v", name, v) }
 	fields := []string{
 		f("g_push", same("PUSHn", pushes...)), f("g_pop", same("POP", 0x50)), f("g_jumpi", same("JUMPI", 0x57)), f("g_jumpdest", same("JUMPDEST", 0x5b)),
-		f("g_codecopy", same("CODECOPY", 0x39)), f("g_call", same("CALL", 0xf1)), f("g_callcode", same("CALLCODE", 0xf2)),
+		f("g_codecopy", same("CODECOPY", 0x39)), f("g_sload", same("SLOAD", 0x54)), f("g_eq", same("EQ", 0x14)), f("g_iszero", same("ISZERO", 0x15)), f("g_call", same("CALL", 0xf1)), f("g_callcode", same("CALLCODE", 0xf2)),
 		f("g_delegate", same("DELEGATECALL", 0xf4)), f("g_static", same("STATICCALL", 0xfa)), f("g_create", same("CREATE", 0xf0)),
 		f("g_create2", same("CREATE2", 0xf5)), f("g_sstore", same("SSTORE", 0x55)), f("g_log", same("LOGn", 0xa0, 0xa1, 0xa2, 0xa3, 0xa4)),
 		f("g_selfdestruct", same("SELFDESTRUCT", 0xff)), f("g_return", same("RETURN", 0xf3)), f("g_revert", same("REVERT", 0xfd)), f("g_stop", same("STOP", 0x00)),
@@ -1824,9 +2112,33 @@ func tableCmd(out string) {
 		f("p_create", params.CreateGas), f("p_createdata", params.CreateDataGas), f("p_maxcode", params.MaxCodeSize),
 		f("p_selfdestruct", params.SelfdestructGas), f("p_createbysd", params.CreateBySelfdestructGas), f("p_suicideref", params.SuicideRefundGas),
 		f("p_memgas", params.MemoryGas), f("p_quad", params.QuadCoeffDiv),
+		f("p_resurrect", b(probeResurrect())),
 	}
 	sb.WriteString("Definition real_gas : gastab := {|\n" + strings.Join(fields, ";\n") + " |}.\n")
 	vf.WriteIfChanged(out, sb.String())
+}
+
+// probeResurrect runs CreateAccount over an object that Finalise(true) has deleted while
+// it held a balance, and reports whether the balance is carried over.
+func probeResurrect() bool {
+	db, err := state.New(common.Hash{}, common.Hash{}, common.Hash{}, state.NewDatabase(youdb.NewMemDatabase()))
+	if err != nil {
+		fmt.Fprintln(os.Stderr, "c16 table: cannot open a state:", err)
+		os.Exit(3)
+	}
+	x := baseAddr(77)
+	db.SetNonce(x, 1)
+	db.SetBalance(x, big.NewInt(3))
+	db.Finalise(true)
+	db.Suicide(x)
+	db.AddBalance(x, big.NewInt(7))
+	db.Finalise(true)
+	if db.Exist(x) {
+		fmt.Fprintln(os.Stderr, "c16 table: a suicided object survived Finalise(true); the model has no such behaviour")
+		os.Exit(3)
+	}
+	db.CreateAccount(x)
+	return db.GetBalance(x).Sign() != 0
 }
 
 // ---- replay ----------------------------------------------------------------------------
@@ -1852,7 +2164,10 @@ func replayCmd(file string) {
 		fmt.Println("cannot run:", err)
 		os.Exit(2)
 	}
-	fmt.Printf("status=%d err=%q gas_left=%d refund=%d burnt=%s logs=%d accounts=%d\n", rs.Status, rs.Err, rs.Gas, rs.Refund, rs.Burnt, len(rs.Logs), len(rs.Accts))
+	for i, x := range rs.Txs {
+		fmt.Printf("tx %d: status=%d err=%q gas_left=%d refund=%d burnt=%s accounts=%d\n", i, x.Status, x.Err, x.Gas, x.Refund, x.Burnt, len(x.Accts))
+	}
+	fmt.Printf("logs=%d\n", len(rs.Logs))
 	if len(rs.Hits) > 0 {
 		for _, h := range rs.Hits {
 			fmt.Println("ORACLE VIOLATION:", h)
